@@ -169,6 +169,8 @@ pub enum Op {
     SelectJump(i32),
     And(i32),
     Or(i32),
+    // Fails unless the value on top of the stack is a boolean. Leaves it in place.
+    CheckBool,
     // Spacer operation, Does nothing.
     Index,     // indexing operation
     SafeIndex, // Safe indexing operation. Does Null Coelescing
